@@ -171,6 +171,12 @@ func (c *seqCase) judge(snap *core.VerifPoolSnapshot, at *block, quiescent bool,
 		if f.Acct >= 0 && c.tainted[f.Acct] && (f.FP == FPReorgGap || f.FP == "C19/pending-nonce-tracker") {
 			continue
 		}
+		if f.FP == FPTrackerLow && stats.IsKnown(FPTrackerLow) {
+			// transient (the next reset run rebuilds the tracker): count and go on
+			c.labels["known_tracker_low_hit"] = true
+			stats.Violation(c.t, c.part, f.FP, f.Msg+" ("+what+")", c.dump(""))
+			continue
+		}
 		if f.FP == FPReorgGap && stats.IsKnown(FPReorgGap) {
 			c.tainted[f.Acct] = true
 			c.labels["known_reorg_gap_hit"] = true
